@@ -384,7 +384,9 @@ def gen_population(rng, cfg, n, style):
             else:
                 op["mu"] = enc(rng.uniform(-d.mu_max, d.mu_max) * rng.random())
             r3 = rng.random()
-            if r3 < 0.1:
+            if r3 < 0.04:
+                op["sigma"] = rng.choice([0, enc(0.0)])
+            elif r3 < 0.1:
                 op["sigma"] = enc(d.sig_min)
             elif r3 < 0.2:
                 op["sigma"] = enc(d.sig_max)
@@ -447,16 +449,22 @@ def gen_options(rng, cfg, rate=0.3, grid=False):
     out = {}
     s = dec(cfg["scale"])
     beta = dec(cfg["kwargs"]["beta"])
+    mt = dec(cfg["kwargs"]["tau"])
     if rng.random() < rate:
         r = rng.random()
-        if r < 0.3:
+        if r < 0.25:
             out["tau"] = rng.choice([0, enc(0.0)])
-        elif r < 0.4:
+        elif r < 0.33:
             out["tau"] = enc(1e-12 * s)
-        elif r < 0.55:
+        elif r < 0.43:
             out["tau"] = enc(25.0 / 300.0 * s)
-        elif r < 0.85:
+        elif r < 0.53:
+            # exactly the model's own tau, or a neighbour of it
+            out["tau"] = enc(float(mt) * rng.choice([1.0, 1.0, 1.0 + 1e-10, 1.0 - 1e-10, 1.0 + 2.0 ** -52]))
+        elif r < 0.80:
             out["tau"] = enc(rng.uniform(0.3, 4.0) * beta)
+        elif r < 0.87:
+            out["tau"] = enc(rng.choice([10.0, 50.0, 300.0]) * beta)
         else:
             out["tau"] = rng.choice([1, 2, 3]) if 0.2 <= s <= 50 else enc(beta)
     if rng.random() < rate:
